@@ -38,6 +38,12 @@ b *
     d *
     e
     z
+    n *
+        c
+        z
+interface-range *
+    mtu
+    z
 interface *
     mtu
     d *
@@ -61,6 +67,13 @@ ACLS_Q = [(0b0111, 0, 0, 0), (0b0011, 1, 0, 1), (0b0110, 0, 1, 0), (0b1111, 0, 0
 ACLS_T = ACLS_Q + [(0b0001, 0, 0, 0), (0b1000, 0, 0, 0), (0b0111, 1, 1, 1), (0b1011, 0, 0, 0), (0b0000, 0, 0, 1), (0b1110, 1, 1, 0),
                    (0b1111, 1, 1, 1), (0b0011, 0, 0, 0)]
 ACLS = ACLS_Q if rt.TIER == "quick" else ACLS_T
+# special ACL texts: (1) a rule that merely STARTS with "interface" (built-in cant_delete default), (2) a row matched by two
+# local rules one of which brings a %global child rule, next to a sibling matched by only one of them
+SPECIAL_ACLS = ["interface-range *\n    mtu\na\n", "b *\n    n * %prio=1\n        c\nb 1\n    ~ %global\n",
+                "interfaces-x\na %cant_delete=1\nb *\n    n *\n        c\n"]
+OLD_S = [S(["interface-range R"], [S(["mtu 9000"]), S(["z"])]),
+         S(["b 1"], [S(["n 1"], [S(["c"]), S(["z"])])]), S(["b 2"], [S(["n 1"], [S(["c"]), S(["z"])])])]
+NEW_S = [S(["a", "a x"]), S(["b 1"], [S(["n 1"], [S(["c"])])]), S(["b 2"], [S(["n 1"], [S(["c"])])])]
 
 OLD_Q = [S(["a"]), S(["interface X"], [S(["mtu 9000"]), S(["z"])]), S(["b 1"], [S(["c"]), S(["d 1"]), S(["z"]), S(["e"])])]
 NEW_Q = [S(["a", "a x"]), S(["interface X"], [S(["mtu 9000", "mtu 1500"])]), S(["b 1"], [S(["c"]), S(["d 1"]), S(["e"])])]
@@ -87,8 +100,11 @@ def ctx(vendor, acl):
         from annet.generators.result import _combine_acl_text
         hw = make_hw(vendor)
         v = registry_connector.get()[hw.vendor]
-        mask, cda, cdb, second = acl
-        t1 = "".join(b.format(cd_a=" %cant_delete=1" if cda else "", cd_b=" %cant_delete=1" if cdb else "")
+        if isinstance(acl, str):
+            mask, cda, cdb, second = 0, 0, 0, 0
+        else:
+            mask, cda, cdb, second = acl
+        t1 = acl if isinstance(acl, str) else "".join(b.format(cd_a=" %cant_delete=1" if cda else "", cd_b=" %cant_delete=1" if cdb else "")
                      for i, b in enumerate(ACL_BLOCKS) if mask >> i & 1)
         gens = {"ga": _G("ga", t1)}
         texts = [("ga", t1)]
@@ -224,6 +240,26 @@ def h_acl_patch(case: int) -> bool:
     return ok
 
 
+NOS, NNS = count(OLD_S), count(NEW_S)
+RADS = [1 if rt.TIER == "quick" else len(VENDORS), len(SPECIAL_ACLS), NOS, NNS]
+NSPEC = RADS[0] * RADS[1] * RADS[2] * RADS[3]
+SLO, SHI = rt.shard_range(NSPEC)
+
+
+def h_special(case: int) -> bool:
+    """
+    pre: SLO <= case < SHI
+    post: _ == True
+    """
+    c = pick(case, SHI, SLO)
+    with NoTracing():
+        vi, ai, oi, ni = digits(c, RADS)
+        ok, detail, kind, nt = check_case(VENDORS[vi], SPECIAL_ACLS[ai], unrank(OLD_S, oi), unrank(NEW_S, ni))
+        rt.record({"vendor": VENDORS[vi], "special": ai, "old": oi, "new": ni}, ok, [vi, ai, oi, ni] if nt else None, detail=detail,
+                  fingerprint="C02:%s" % kind)
+    return ok
+
+
 def h_twin(case: int) -> bool:
     """
     pre: 0 <= case < NOLD
@@ -246,11 +282,15 @@ def plan(tier):
     q = tier == "quick"
     return [
         dict(name="acl_patch", func="h_acl_patch", shards=16 if q else 64, timeout=280 if q else 3000),
+        dict(name="acl_patch.special", func="h_special", shards=8, timeout=280 if q else 900),
         dict(name="twin", func="h_twin", shards=1, timeout=60, expect="refuted"),
     ]
 
 
 def replay(obligation, case):
+    if "special" in case:
+        ok, detail, kind, _ = check_case(case["vendor"], SPECIAL_ACLS[case["special"]], unrank(OLD_S, case["old"]), unrank(NEW_S, case["new"]))
+        return {"ok": ok, "detail": detail, "fingerprint": "C02:%s" % kind}
     t = case.get("tier", "quick")
     old_s, new_s = (OLD_Q, NEW_Q) if t == "quick" else (OLD_T, NEW_T)
     ok, detail, kind, _ = check_case(case["vendor"], tuple(case["acl"]), unrank(old_s, case["old"]), unrank(new_s, case["new"]))
